@@ -22,7 +22,8 @@ point is not in the lists (torn = not applied; SQLite's journalling is trusted, 
                               tracker in the tracker DB are the replay of exactly rounds 1..AccountsRound.
 * `scheduled_le_committed`    the other invariant: every pending / prepared / committed tracker commit targets a round
                               ≤ lastCommitted.
-* `recoverFromCrash_*`        catchpoint bookkeeping (model `Model.Durable.CatchpointBook`): see the section at the end.
+* `open_ahead_replays_from_genesis` the safety net of trackerDBInitialize (tracker DB ahead of the block DB ⇒ reset + full replay).
+* `recoverFromCrash_*`        catchpoint bookkeeping (model `Model.Durable.CatchpointBook`), PARTIAL: see the section at the end.
 -/
 namespace Props.C09
 open AlgoVerif.Model.Durable AlgoVerif.Lemmas.Durable
